@@ -192,17 +192,27 @@ public:
       }
       _lastAdvanceTime = now;
 
+      std::vector<TimerEntry*> notDue;
       for (std::size_t t = 0; t < ticksToProcess; ++t)
       {
         auto& level0 = _wheels[0];
         auto& bucket = level0.buckets[level0.currentTick & _tickMask];
-        collectFromBucket(bucket, toFire);
+        collectFromBucket(bucket, now, toFire, notDue);
         level0.currentTick++;
 
         if ((level0.currentTick & _tickMask) == 0)
         {
           cascadeDown(1, now, toFire);
         }
+      }
+
+      // Entries the catch-up loop reached more than one tick before their deadline
+      // (inserted while currentTick lagged behind real time) go back into the wheel,
+      // now relative to the caught-up tick.
+      for (auto* entry : notDue)
+      {
+        insertEntry(entry, std::chrono::duration_cast<std::chrono::milliseconds>(
+                             entry->deadline - now));
       }
     }
 
@@ -533,17 +543,32 @@ private:
   /// skip entries that were placed correctly. Entries whose deadline
   /// is slightly in the future (placed between ticks) still fire —
   /// this matches the tick-granularity contract.
-  void collectFromBucket(Bucket& bucket,
-                         std::vector<std::pair<TimerId, Callback>>& toFire)
+  ///
+  /// The exception: an entry that is still MORE than one tick away from its
+  /// deadline. Entries are placed relative to currentTick; while the wheel
+  /// lags behind real time (a long callback on the tick thread, a late tick
+  /// thread) that tick is stale and the catch-up loop in advance() reaches
+  /// the bucket too early. Such entries are handed back via \p notDue and
+  /// re-inserted by the caller once the loop has caught up.
+  void collectFromBucket(Bucket& bucket, TimePoint now,
+                         std::vector<std::pair<TimerId, Callback>>& toFire,
+                         std::vector<TimerEntry*>& notDue)
   {
     auto* entry = bucket.head;
     while (entry)
     {
       auto* next = entry->next;
       bucket.unlink(entry);
-      _entryMap.erase(entry->id);
-      toFire.emplace_back(entry->id, std::move(entry->callback));
-      freeEntry(entry);
+      if (entry->deadline > now + _tickDuration)
+      {
+        notDue.push_back(entry);
+      }
+      else
+      {
+        _entryMap.erase(entry->id);
+        toFire.emplace_back(entry->id, std::move(entry->callback));
+        freeEntry(entry);
+      }
       entry = next;
     }
   }
